@@ -457,7 +457,8 @@ Definition switch (pos : Z) (prev : option N) (i : Z) (c : N) (tl : list N) (t :
     else if next_is tl 58 || next_is tl 63 then
       if early pos t then mk_sres KEarly t []
       else cont_skip 1 (set_unsafe true (flow i 0 t)) [AChar hl_pipe (c :: firstn 1 tl); AStartFunc]
-    else if prev_is prev 32 then
+    else if prev_is prev 32 || prev_is prev 9 || next_is tl 32 || next_is tl 9 then
+      (* like the block parser: `?` is a glob character only with no white space on either side (fix) *)
       if early pos t then mk_sres KEarly t []
       else cont (set_unsafe true (flow i 4 t)) [AChar hl_pipe [c]; ACode hl_function]
     else add_raw c t
